@@ -34,6 +34,9 @@ type MemStore struct {
 	// It survives restarts and crashes of the store (Raft persists an entry before
 	// it is applied); a store restored from a backup starts with a new, empty log.
 	Covered uint64
+	// Started: a node has been started next to this store before, so its Raft directory holds
+	// state (a term, a configuration entry) even if no event was ever added.
+	Started bool
 	// FailWrite >= 0: the FailWrite-th Mutate from now (0 = the next one) fails with an
 	// I/O error and writes nothing (a full disk, a failing device); later ones work again.
 	FailWrite int
